@@ -56,3 +56,38 @@ def register_p3(reg, prop):
             ],
             frame=None))
         alias_loops_by_order(reg.fns[KEY + nm])
+
+
+    # Region registration from announcing events: a region already known under that circuit address (or, failing that, under that
+    # seed URL) is the one returned - whether or not it has a circuit yet -, and only otherwise exactly one new region is created
+    # and appended.
+    CREL = "hippolyzer/lib/client/state.py"
+    reg.add_class(ClassDecl("RegionSeen", fields={"circuit_addr": "Opaque:Addr", "cap_urls": "Opaque:CapUrls", "handle": "Opt[Int]",
+                                                  "is_alive": "Bool", "circuit": "Opt[Opaque:Circuit]"}))   # the last two: not read by the current body, declared to stay in reach
+    reg.add_class(ClassDecl("ClientSession", fields={"regions": "Opaque:RegionList", "REGION_CLS": o}))
+    reg.add_fn(FnContract(
+        key="hippolyzer.lib.client.state:BaseClientSession.register_region", relpath=CREL,
+        qualname="BaseClientSession.register_region", cls="ClientSession", prop=prop,
+        params={"circuit_addr": "Opt[Opaque:Addr]", "seed_url": "Opt[Str]", "handle": "Opt[Int]"},
+        param_names=["circuit_addr", "seed_url", "handle"], defaults={"circuit_addr": None, "seed_url": None, "handle": None},
+        returns="Opaque:Any",
+        externals={
+            "any": {"returns": "Bool", "doc": "any((circuit_addr, seed_url))"},
+            "region.cap_urls.get": {"returns": "Opt[Str]", "doc": "the region's Seed URL, if it has one"},
+            "region.update_caps": {"record_as": "update_caps", "doc": "Seed URL recorded on the existing region"},
+            "self.REGION_CLS": {"returns": "Opaque:Region", "record_as": "create", "record_result": True, "doc": "new region object"},
+            "self.regions.append": {"record_as": "append", "doc": "session's region list"},
+        },
+        may_raise={"ValueError": ""},
+        loops={"for region in self.regions": {
+            "elem_sort": "Obj:RegionSeen", "inv": ["True"],
+            # a region that is passed over is at another address: no second region is ever registered for an address already known
+            "iter_post": ["not (not is_none(circuit_addr) and region.circuit_addr == val(circuit_addr))", "ncalls('create') == 0"]}},
+        ensures=[
+            # found: that region is returned and nothing is created; not found: exactly one region is created, appended and returned
+            "implies(L0_left_early == 1, ncalls('create') == 0 and ncalls('append') == 0 and RESULT == region)",
+            "implies(L0_left_early == 0, ncalls('create') == 1 and ncalls('append') == 1 and "
+            "called_with('create', lambda arg0, arg1, result: arg0 == val(circuit_addr) and result == RESULT and called_with('append', lambda arg0: arg0 == result)))",
+        ],
+        frame=None))
+    alias_loops_by_order(reg.fns["hippolyzer.lib.client.state:BaseClientSession.register_region"])
